@@ -45,7 +45,11 @@ def check(run, model, tier):
     wake = nodes(lambda c: isinstance(c.func, ast.Attribute) and c.func.attr in ('append', 'appendleft', 'post_fifo', 'post_lifo') and
                  (dotted(c.func.value) in (selfn + '.queue', selfn + '.locking_deque', selfn)) and
                  any(signal_const(x) == 'STOP_ACTIVE_OBJECT_SIGNAL' for x in ast.walk(c)))
-    join = nodes(lambda c: isinstance(c.func, ast.Attribute) and c.func.attr == 'join' and dotted(c.func.value) == selfn + '.thread')
+    # (the thread may be read into a local first: `thread = self.thread` ... `thread.join()`)
+    jdefs_ = local_defs(stop.node) if 'local_defs' in globals() else __import__('sa.util', fromlist=['local_defs']).local_defs(stop.node)
+    thread_locals = {k_ for k_, v_ in jdefs_.items() if any(isinstance(d_, ast.AST) and dotted(d_) == selfn + '.thread' for d_ in v_)}
+    join = nodes(lambda c: isinstance(c.func, ast.Attribute) and c.func.attr == 'join' and (dotted(c.func.value) == selfn + '.thread' or
+                                                                                         (isinstance(c.func.value, ast.Name) and c.func.value.id in thread_locals)))
     cancel = nodes(lambda c: isinstance(c.func, ast.Attribute) and c.func.attr in ('cancel_events', 'cancel_event') and dotted(c.func.value) == selfn)
     for what, lst in (('run-flag clear', clear), ('join', join), ('cancel-all call', cancel)):
         run.floor('stop(): %s sites' % what, len(lst), 1)
@@ -56,6 +60,8 @@ def check(run, model, tier):
     if not clear:
         run.inst('ORDER.stop', stop, 'run flag cleared before the join', False, 'stop() does not clear the object\'s run flag: the thread never leaves its loop', obligation=True)
         return
+    if not join or not cancel:
+        raise AnalysisError('stop(): the join of the object\'s thread / the cancellation of its timed sources was not located (unknown shape)')
     c0, w0, j0, x0 = clear[0], wake[0], join[0], cancel[0]
     ok = g.dominates(c0, w0)
     run.inst('ORDER.stop', stop, 'run flag cleared before the wake-up item is posted', ok,
